@@ -6,7 +6,7 @@ import random
 import core
 
 PID = 'C11'
-MODULES = ['FFVerif.Proofs.C11', 'FFVerif.Proofs.C11Chol', 'FFVerif.Proofs.C11Model', 'FFVerif.Proofs.C11CholPD']
+MODULES = ['FFVerif.Proofs.C11', 'FFVerif.Proofs.C11Chol', 'FFVerif.Proofs.C11Model', 'FFVerif.Proofs.C11Law', 'FFVerif.Proofs.C11CholPD']
 
 
 def fail(res, clause, case, out, sig=None):
